@@ -1,6 +1,6 @@
 (* C01 — Versioned reads resolve to the nearest ancestor write in the version DAG.
    Statements only; proofs are in Proofs/Resolve.v and Proofs/Core.v. *)
-From DV Require Import Base.Prelude Model.Dag Model.Resolve Model.Core Proofs.Resolve Proofs.Core.
+From DV Require Import Base.Prelude Model.Dag Model.Resolve Model.Core Proofs.Resolve Proofs.ResolveSpec Proofs.Core.
 From Coq Require Import Permutation.
 Local Open Scope N_scope.
 
@@ -23,6 +23,17 @@ Theorem C01_spec_deterministic :
   forall par ent v r1 r2, read_spec par ent v r1 -> read_spec par ent v r2 -> r1 = r2.
 Proof. exact read_spec_det. Qed.
 Print Assumptions C01_spec_deterministic.
+
+(* The executable oracle with which the check judges the implementation's answers
+   (Model.Resolve.frontier_read, computed from the definition of the frontier without the
+   resolver) meets the same specification, hence equals the resolver. *)
+Theorem C01_oracle_is_specification :
+  forall (par : V -> list V) (rank : V -> nat),
+    (forall v p, In p (par v) -> (rank p < rank v)%nat) ->
+  forall (ent : V -> option entry) (fuel : nat), (forall x, (rank x <= fuel)%nat) ->
+  forall v, read_spec par ent v (frontier_read par ent fuel v).
+Proof. exact frontier_read_correct. Qed.
+Print Assumptions C01_oracle_is_specification.
 
 (* Writes at versions that are neither v nor an ancestor of v never affect the result. *)
 Theorem C01_isolation :
